@@ -28,6 +28,8 @@ var kvPrefixOf = map[string]string{
 	"AuctionV2.GetAuctionHistorical": "07", "AuctionV2.GetAuctionHistoricals": "07",
 	"Rewards.GetEpochTime": "20", "Rewards.GetEpochTimeID": "17", "Rewards.GetExternalRewardsLockersID": "15", "Rewards.GetExternalRewardsVaultID": "16",
 	"Rewards.GetExternalRewardsLendID": "28", "Rewards.GetGaugeID": "22",
+	"AuctionV1.GetAllDutchUserBiddings": "12", "AuctionV1.GetAllDebtUserBidding": "12", "AuctionV1.GetAllSurplusUserBiddings": "12",
+	"AuctionV1.GetDutchLendAuctions": "20", "AuctionV1.GetLendAuctionID": "19",
 	"Lend.GetUserLendIDCounter": "16", "Lend.GetUserBorrowIDCounter": "25", "Lend.GetPoolID": "17", "Lend.GetLendPairID": "18",
 }
 
